@@ -1,5 +1,5 @@
 /-
-The Go text the hand-written models of `pipe.New` (Go/Unbound.lean), pipe/queue.go (Model/Queue.lean) and of
+The Go text the hand-written models of pipe/queue.go (Model/Queue.lean) and of
 `Seq` / `ToSeq` / `StdErr` (Model/Stages.lean `seqChan`, `toSeq`; the always-ready drain of the lock-step driver) were
 written against: one trimmed line of gofmt-printed source per list element, comments dropped, annotated here with
 the control point / model clause that line became.  go/xlate family `gotext` prints the same functions from the
@@ -8,55 +8,6 @@ equality.  This is a SYNTACTIC tie (no semantic translation exists for these fun
 judged by the enlarged lock-step search.  Core Lean only.
 -/
 namespace Golem.Model.GoText
-
-def New_text : List String := [
-  "func New[T any](ctx context.Context, cap int) (<-chan T, chan<- T) {",
-  "eg := make(chan T, cap)",
-  "in := make(chan T, cap)",
-  "mq := newq[T]()",
-  "go func() {",   -- the pump goroutine
-  "defer close(eg)",   -- Pc.closeEg, Pc.exited
-  "flush := func() {",
-  "for mq.head != nil {",   -- Pc.flush (loop test mq ≠ [])
-  "eg <- head(mq)",   -- Pc.flush: sendEg (head mq)
-  "deq(mq)",   -- Pc.flushSent: mq := mq.tail
-  "}",
-  "}",
-  "for {",   -- Pc.main
-  "select {",   -- every ready arm is a successor
-  "case <-ctx.Done():",   -- cancelled → Pc.drain
-  "for {",
-  "select {",   -- non-blocking: `default` iff `in` empty and open
-  "case x, ok := <-in:",   -- Pc.drain → Pc.drainGot x
-  "if !ok {",   -- closed and drained → Pc.flush
-  "flush()",
-  "return",
-  "}",
-  "enq(&x, mq)",   -- Pc.drainGot x: mq := mq ++ [x]
-  "continue",
-  "default:",   -- → Pc.closeIn
-  "}",
-  "break",
-  "}",
-  "close(in)",   -- Pc.closeIn (panics if the sender closed `in` in between)
-  "for x := range in {",   -- Pc.range → Pc.rangeGot x
-  "enq(&x, mq)",   -- mq := mq ++ [x]
-  "}",
-  "flush()",   -- Pc.flush … Pc.closeEg
-  "return",
-  "case x, ok := <-in:",   -- recvIn .mainGot .flush
-  "if !ok {",
-  "flush()",
-  "return",
-  "}",
-  "enq(&x, mq)",   -- Pc.mainGot x: mq := mq ++ [x]
-  "case emit(eg, mq) <- head(mq):",   -- enabled iff mq ≠ [] (nil-channel trick): sendEg (head mq) .mainSent
-  "deq(mq)",   -- Pc.mainSent: mq := mq.tail
-  "}",
-  "}",
-  "}()",
-  "return eg, in",
-  "}"]
 
 def newq_text : List String := [
   "func newq[A any]() *queue[A] {",
